@@ -8,7 +8,8 @@ all of whose call sites are dominated by a *bounded-counter guard*:
   (ii) the same on a by-value integer parameter that is incremented and passed on (try_duplicate);
   (iii) a test-and-decrement of a `&mut usize` budget parameter passed on (is_unrollable);
 or be listed in the triage table with a reason that is itself checked (emit: the re-entrant call only
-receives leaf nodes). Recursive drop glue of recursive ADTs is reported with the walkers.
+receives leaf nodes). Recursive drop glue of recursive ADTs is reported with the walkers. All field-counter guards in parse.rs
+use the same field (one budget for the total nesting, not one per kind of nesting).
 
 LIMITS: every `+= 1` of a Parser counter that becomes an index type downstream (group_count, loop_count)
 is dominated by a comparison of that field with a MAX_* constant whose failing edge returns Err.
@@ -257,6 +258,7 @@ def check(facts):
     comps = [c for c in core.sccs(nodes, edges) if len(c) > 1 or c[0] in edges.get(c[0], ())]
     r.stats["recursive_sccs"] = len(comps)
     nsites = 0
+    parse_counters = {}
     for comp in comps:
         cset = set(comp)
         # A cycle is identified by where it is entered from outside (stable when a helper is extracted inside the cycle)
@@ -282,6 +284,9 @@ def check(facts):
                         continue
                     nsites += 1
                     g = site_guard(body, bb, caller == callee, t, facts)
+                    if g and caller.startswith("parse::") and ("(*" in g["counter"]):
+                        m_ = re.search(r"\(\*\w+\)((?:\.\w+)+)", g["counter"])
+                        parse_counters.setdefault(m_.group(1) if m_ else g["counter"], set()).add(comp_key)
                     if g:
                         notes.append("line %s guarded by %s %s %s (line %s)" % (line, g["counter"], g["cmp"], g["bound"], g["guard_line"]))
                     else:
@@ -315,6 +320,18 @@ def check(facts):
             where = facts.loc(bad[0])
             r.fail(comp_key, "recursion cycle with no bounded-counter guard: %s (depth follows the depth of the IR / input)" %
                    " -> ".join(x.split("::")[-1] for x in bad), where, detail)
+    # the parser's recursion budget is one budget: every guarded recursion in parse.rs counts on the same field, so MAX_NESTING_DEPTH
+    # bounds the *total* nesting (groups inside classes inside lookarounds ...), not each kind separately
+    key = "parser recursion guards share one depth counter"
+    if len(parse_counters) > 1:
+        r.fail(key, "the parser's recursion cycles are guarded by different counters (%s): each is bounded by its own limit, so a pattern "
+                    "that mixes the kinds of nesting recurses to the sum of the limits (256 groups, then 256 nested classes) and overflows "
+                    "the stack the single limit was sized for" % "; ".join("`self%s` guards %s" % (c, ", ".join(sorted(k))) for c, k in sorted(parse_counters.items())),
+               facts.loc(ENTRY))
+    elif parse_counters:
+        r.ok(key, "`self%s` in %d cycles" % (list(parse_counters)[0], len(list(parse_counters.values())[0])))
+    else:
+        r.error("no field-counter guard found in parse.rs (anchor lost)")
     r.floor("recursive_call_sites", nsites, 25)
     r.floor("recursive_sccs", len(comps), 8)
 
